@@ -528,7 +528,7 @@ func classify(err error, pv any) string {
 	return "error"
 }
 
-const opTimeout = 20 * time.Second
+const opTimeout = 45 * time.Second
 
 // startSplit starts a propose / deliver in its own goroutine and waits until it is parked at the
 // pre-lock gate or has returned.
